@@ -24,6 +24,8 @@ struct Sess {
   int observers = 0;          // libcoap's own registry (observe_added / observe_deleted callbacks)
   int asyncs = 0;
   std::set<int> inflight;     // Confirmable mids sent by the server on this session and not yet concluded
+  bool tcp = false;           // session of the TCP endpoint
+  bool closed = false;        // TCP: the peer has closed or reset the connection
   std::string holders() const {
     std::string h;
     if (app_refs) h += "application_reference,";
@@ -52,7 +54,9 @@ struct C12World {
   std::set<Key> arriving;                             // keys of the datagrams delivered to the server in this instant
   uint64_t arriving_t = 0;
   std::map<int, int> mute;                            // peer -> 1 = does not acknowledge
+  std::set<Key> closed_keys;                          // TCP connections the peer has closed
 };
+const uint16_t TCP_PORT = 5700;
 C12World *g = nullptr;
 
 Key key_of(const coap_session_t *s) { return Key{cx::remote_of(s), cx::local_of(s).port}; }
@@ -75,6 +79,14 @@ void hnd_plain(coap_resource_t *, coap_session_t *session, const coap_pdu_t *req
 
 void hnd_obs(coap_resource_t *, coap_session_t *session, const coap_pdu_t *request, const coap_string_t *, coap_pdu_t *response) {
   check_session(session, cx::tok_of(request), "observe handler");
+  {
+    // libcoap's observe_added tracking callback is only made for UDP sessions: on the TCP endpoint the registration is taken from
+    // the request the handler sees (the registration itself or the stored copy libcoap replays for a notification)
+    auto it = g->live.find(session);
+    coap_opt_iterator_t oi;
+    coap_opt_t *o = coap_check_option(request, COAP_OPTION_OBSERVE, &oi);
+    if (it != g->live.end() && it->second.tcp && !it->second.closed && o && coap_decode_var_bytes(coap_opt_value(o), coap_opt_length(o)) == 0) it->second.observers = 1;
+  }
   coap_pdu_set_code(response, COAP_RESPONSE_CODE_CONTENT);
   uint8_t b[2] = {(uint8_t)(g->state >> 8), (uint8_t)g->state};
   coap_add_data(response, 2, b);
@@ -110,7 +122,7 @@ int on_event(coap_session_t *s, const coap_event_t ev) {
     auto bk = g->by_key.find(k);
     if (bk != g->by_key.end()) g->res->violate("R8.second_session_for_peer", "new_while_live", strfmt("session-new for %s (%p) while session %p of the same peer is still live", k.str().c_str(), (void *)s, (const void *)bk->second));
     // idle limit: a new session may only appear next to max_idle idle ones if the oldest idle one was evicted just now
-    if (g->max_idle > 0) {
+    if (g->max_idle > 0 && k.lport != TCP_PORT) {
       unsigned idle = 0;
       for (auto &kv : g->live) if (kv.second.key.lport == k.lport && kv.second.holders().empty()) idle++;
       if (idle >= g->max_idle && g->last_evict_t != g->w.now())
@@ -119,6 +131,9 @@ int on_event(coap_session_t *s, const coap_event_t ev) {
     Sess n;
     n.key = k;
     n.t_new = n.last_act = n.last_rx = n.prev_rx = g->w.now();
+    n.tcp = k.lport == TCP_PORT;
+    n.closed = g->closed_keys.count(k) > 0;
+    if (n.tcp) g->w.count("probe.tcp_session_new");
     g->live[s] = n;
     g->by_key[k] = s;
   } else if (ev == COAP_EVENT_SERVER_SESSION_DEL) {
@@ -132,7 +147,8 @@ int on_event(coap_session_t *s, const coap_event_t ev) {
       if (!h.empty()) g->res->violate("R8.deleted_while_referenced", h, strfmt("session %s deleted while it is still referred to by: %s", ss.key.str().c_str(), h.c_str()));
       // a datagram delivered in this very instant has not been read yet when the time-out scan of the same step runs
       uint64_t idle_ns = g->w.now() - std::max(ss.last_tx, ss.last_rx == g->w.now() ? ss.prev_rx : ss.last_rx);
-      if (idle_ns + 2000000ull < (uint64_t)g->timeout_s * 1000000000ull) {
+      if (ss.tcp && ss.closed) g->w.count("probe.tcp_closed_session_deleted");     // the connection is gone: reclaimed as soon as nothing refers to it
+      else if (idle_ns + 2000000ull < (uint64_t)g->timeout_s * 1000000000ull) {
         // not a time-out: only legitimate as eviction of the oldest idle session when a new peer shows up at the limit
         unsigned idle = 0;
         uint64_t oldest = UINT64_MAX;
@@ -207,7 +223,8 @@ struct C12 : Property {
     static const int idles[] = {0, 0, 1, 2, 3, 5};
     int npeers = r.chance(0.7) ? (int)r.range(1, 8) : (int)r.range(8, 50);
     int neps = r.chance(0.3) ? 2 : 1;
-    p["config"] = {{"session_timeout", timeouts[r.below(5)]}, {"max_idle", idles[r.below(6)]}, {"endpoints", neps}, {"peers", npeers}};
+    int ntcp = r.chance(0.4) ? (int)r.range(1, 3) : 0;      // stream peers on a TCP endpoint (connect, request, close/reset)
+    p["config"] = {{"session_timeout", timeouts[r.below(5)]}, {"max_idle", idles[r.below(6)]}, {"endpoints", neps}, {"peers", npeers}, {"tcp_peers", ntcp}};
     json ops = json::array();
     int n = (int)r.range(5, 60);
     int64_t t = 0;
@@ -215,6 +232,18 @@ struct C12 : Property {
       t += r.chance(0.5) ? r.range(0, 50) : r.chance(0.7) ? r.range(50, 5000) : r.chance(0.7) ? r.range(5000, 130000) : r.range(130000, 700000);
       int peer = (int)r.below((uint64_t)npeers), ep = (int)r.below((uint64_t)neps);
       double x = (r.next() >> 11) * (1.0 / 9007199254740992.0);
+      if (ntcp && r.chance(0.45)) {
+        int tp = (int)r.below((uint64_t)ntcp);
+        static const int tdelays[] = {1, 2, 10, 60, 400};
+        if (x < 0.45) {
+          double y = (r.next() >> 11) * (1.0 / 9007199254740992.0);
+          ops.push_back({{"t_ms", t}, {"op", "treq"}, {"tpeer", tp}, {"kind", y < 0.35 ? "plain" : y < 0.6 ? "observe" : "async"}, {"delay_s", tdelays[r.below(5)]}});
+        } else if (x < 0.62) ops.push_back({{"t_ms", t}, {"op", "ref"}, {"tpeer", tp}});
+        else if (x < 0.72) ops.push_back({{"t_ms", t}, {"op", "rel"}, {"tpeer", tp}});
+        else if (x < 0.78) ops.push_back({{"t_ms", t}, {"op", "use"}, {"tpeer", tp}, {"con", r.chance(0.5)}});
+        else ops.push_back({{"t_ms", t}, {"op", "tclose"}, {"tpeer", tp}, {"how", r.chance(0.5) ? "fin" : "rst"}});
+        continue;
+      }
       if (x < 0.45) {
         double y = (r.next() >> 11) * (1.0 / 9007199254740992.0);
         const char *kind = y < 0.45 ? "plain" : y < 0.75 ? "observe" : y < 0.8 ? "cancel" : "async";
@@ -289,6 +318,56 @@ struct C12 : Property {
       make_obs_res();
     }
     for (int e = 0; e < neps; e++) cx::new_endpoint(w, 0, cw.ctx, ports[e], COAP_PROTO_UDP);
+    // stream peers: connect lazily, send their CSM first, may close or reset the connection while the server still refers to the session
+    struct TPeer { int fd = -1; Bytes pending; Key key; bool have_key = false; uint64_t stream = 0; };
+    int ntcp = std::max(0, std::min(3, cfg.value("tcp_peers", 0)));
+    std::vector<TPeer> tp((size_t)ntcp);
+    if (ntcp) cx::new_endpoint(w, 0, cw.ctx, TCP_PORT, COAP_PROTO_TCP);
+    auto tcp_connect = [&](int i) {
+      TPeer &t = tp[(size_t)i];
+      if (t.fd >= 0) return;
+      t.fd = simk::raw_connect(1 + i, World::node_addr(0, TCP_PORT));
+      t.pending.clear();
+      t.have_key = false;
+      t.stream = 0;
+      if (t.fd < 0) return;
+      simk::Fd *f = simk::get(t.fd);
+      t.key = Key{f->local, TCP_PORT};
+      t.have_key = true;
+      r1::Msg csm;
+      csm.code = 0xE1;
+      csm.opts.push_back({2, r1::encode_uint(1152)});
+      Bytes b = r1::encode_tcp(csm);
+      t.pending.insert(t.pending.end(), b.begin(), b.end());
+      w.count("probe.tcp_connect");
+    };
+    auto stamp = [&](const Key &k, bool rx) {
+      auto bk = cw.by_key.find(k);
+      if (bk == cw.by_key.end()) return;
+      Sess &ss = cw.live[bk->second];
+      if (rx) { if (w.now() > ss.last_rx) { ss.prev_rx = ss.last_rx; ss.last_rx = w.now(); } }
+      else ss.last_tx = w.now();
+      ss.last_act = std::max(ss.last_tx, ss.last_rx);
+    };
+    w.stream_taps.push_back([&](int sid, int side, const Bytes &) {
+      if (cw.tearing_down) return;
+      for (auto &t : tp) {
+        if (t.fd < 0 || !t.have_key) continue;
+        simk::Fd *f = simk::get(t.fd);
+        if (!f || !f->st || (int)f->st->id != sid) continue;
+        Key k = t.key;
+        if (side == 1) stamp(k, false);                                       // the server wrote
+        else w.after_us(w.base_latency_us, [&, k]() { if (!cw.tearing_down) { if (cw.arriving_t != w.now()) cw.arriving.clear(); cw.arriving_t = w.now(); stamp(k, true); } });   // the peer wrote: read one latency later
+      }
+    });
+    w.pollers.push_back([&]() {
+      for (auto &t : tp) {
+        if (t.fd < 0) continue;
+        if (!t.pending.empty() && simk::fd_writable(t.fd)) { simk::raw_stream_write(t.fd, t.pending); t.pending.clear(); }
+        Bytes sink;
+        simk::raw_stream_read(t.fd, sink);
+      }
+    });
     // raw peers
     std::vector<int> fds;
     std::vector<simk::Addr> addrs;
@@ -349,9 +428,55 @@ struct C12 : Property {
         std::string kind = o.value("op", "notify");
         int peer = o.value("peer", 0) % npeers, ep = o.value("ep", 0) % neps;
         Key k{addrs[(size_t)peer], ports[ep]};
+        int tpi = -1;
+        if (o.contains("tpeer")) {
+          if (!ntcp) return;
+          tpi = o.value("tpeer", 0) % ntcp;
+          if (kind != "treq" && !tp[(size_t)tpi].have_key) return;
+          k = tp[(size_t)tpi].key;
+        }
         bool app_loop = false;     // the application did something: its main loop then calls coap_io_process() again
         struct Stepper { World &w; bool &on; ~Stepper() { if (on) w.step_node(0); } } stepper{w, app_loop};
-        if (kind == "req") {
+        if (kind == "treq") {
+          tcp_connect(tpi);
+          TPeer &t = tp[(size_t)tpi];
+          if (t.fd < 0) return;
+          std::string rk = o.value("kind", "plain");
+          r1::Msg m;
+          m.code = 1;
+          if (rk == "observe") m.token = {0xC1, 0x2A, (uint8_t)tpi};
+          else { tokctr++; m.token = {0xC1, 0x2B, (uint8_t)(tokctr >> 8), (uint8_t)tokctr}; }
+          if (rk == "observe") m.opts.push_back({r1::O_OBSERVE, {}});
+          std::string path = rk == "plain" ? "r" : rk == "async" ? "a" : "o";
+          m.opts.push_back({r1::O_URI_PATH, Bytes(path.begin(), path.end())});
+          if (rk == "async") { std::string q = std::to_string(o.value("delay_s", 1)); m.opts.push_back({r1::O_URI_QUERY, Bytes(q.begin(), q.end())}); }
+          cw.token_owner[m.token] = t.key;
+          Bytes b = r1::encode_tcp(m);
+          t.pending.insert(t.pending.end(), b.begin(), b.end());
+          w.count("probe.tcp_request");
+          w.log("TREQ tpeer=%d %s", tpi, rk.c_str());
+        } else if (kind == "tclose") {
+          TPeer &t = tp[(size_t)tpi];
+          if (t.fd < 0) return;
+          bool rst = o.value("how", "fin") == "rst";
+          cw.closed_keys.insert(t.key);
+          auto bk = cw.by_key.find(t.key);
+          if (bk != cw.by_key.end()) {
+            Sess &ss = cw.live[bk->second];
+            ss.closed = true;
+            ss.observers = 0;       // observations end with the connection
+            std::string h = ss.holders();
+            if (!h.empty()) w.count("probe.tcp_closed_while_referenced");
+          }
+          if (rst) {
+            simk::Fd *f = simk::get(t.fd);
+            if (f && f->st) { simk::Stream *st = f->st; w.after_us(w.base_latency_us, [st]() { simk::deliver_fin(st, 1, true); }); }
+          }
+          simk::raw_close(t.fd);
+          t.fd = -1;
+          w.count(rst ? "fault.peer_rst" : "fault.peer_fin");
+          w.log("TCLOSE tpeer=%d %s", tpi, rst ? "rst" : "fin");
+        } else if (kind == "req") {
           std::string rk = o.value("kind", "plain");
           r1::Msg m;
           m.type = o.value("con", true) ? 0 : 1;
@@ -420,6 +545,7 @@ struct C12 : Property {
           World::AsNode as(0);
           coap_delete_resource(cw.ctx, cw.obs_res);
           cw.obs_res = nullptr;
+          for (auto &kv : cw.live) if (kv.second.tcp) kv.second.observers = 0;
           // libcoap reports the removed observations through observe_deleted; anything it forgot stays in the ledger
           w.log("DELETE-RESOURCE");
           app_loop = true;
